@@ -547,9 +547,22 @@ class SequenceEncoder(AbstractItemEncoder):
 
             namedTypes = value.componentType
 
-            for idx, component in enumerate(value.values()):
+            for idx in range(len(namedTypes) or len(value)):
+                # look, don't touch: encoding must not instantiate absent
+                # components in the value being encoded
+                component = value.getComponentByPosition(idx, instantiate=False)
+
                 if namedTypes:
                     namedType = namedTypes[idx]
+
+                    if component is univ.noValue:
+                        if namedType.isOptional or namedType.isDefaulted:
+                            if LOG:
+                                LOG('not encoding absent component %r' % (namedType,))
+                            continue
+
+                        # mandatory component: the schema may carry its value
+                        component = value.getComponentByPosition(idx)
 
                     if namedType.isOptional and not component.isValue:
                         if LOG:
